@@ -36,10 +36,11 @@ def env():
             uri = request.get_request_uri()
             assert uri.startswith(HOST + "/"), uri
             segs = [urllib.parse.unquote(x) for x in uri[len(HOST):].split("?")[0].split("/")[1:]]
+            qparts = [urllib.parse.unquote(x) for x in uri.split("?", 1)[1].split("&")] if "?" in uri else []
         except ValueError:
-            segs = "exn:ValueError"
+            segs = "exn:ValueError"; qparts = []
         orig = getattr(request, "_original_request_path", None)
-        return {"h": self.id, "seen": list(request.opt.uri_path), "orig": None if orig is None else list(orig), "uri": segs}
+        return {"h": self.id, "seen": list(request.opt.uri_path), "orig": None if orig is None else list(orig), "uri": segs, "q": qparts}
     def observe(self, request):
         log.append(describe(self, request))
         return aiocoap.Message(payload=str(self.id).encode())
@@ -104,16 +105,21 @@ def ref_at(root, addr):
         s = s.sub.get(tuple(k)) if isinstance(s, RefSite) else None
         if s is None: return None
     return s if isinstance(s, RefSite) else None
+LITERAL = [True]      # True: the property's literal reading (a nested site at the EMPTY path is a proper prefix of every non-empty path);
+                      # False: the code's reading (non-empty proper prefixes only, O2).  check_op judges by the literal reading and
+                      # classifies a failure that the code's reading explains as C17:empty-prefix-subsite-ignored
 def ref_route(site, path):
-    """exact resource, else nested site at the longest NON-EMPTY proper prefix (O2), which gets the rest ([""] -> [])"""
+    """exact resource, else nested site at the longest proper prefix, which gets the rest ([""] -> [])"""
     path = tuple(path)
     if path in site.res: return ("res", site.res[path], ())
-    cands = [k for k in range(1, len(path)) if path[:k] in site.sub]
+    cands = [k for k in range(0 if LITERAL[0] else 1, len(path)) if path[:k] in site.sub]
     if not cands: return None
     k = max(cands); child = site.sub[path[:k]]; rest = path[k:]
     if rest == ("",): rest = ()
     if not isinstance(child, RefSite): return ("opaque", child, rest)
     return ref_route(child, rest)
+def has_empty_subsite(site):
+    return any(p == () or (isinstance(c, RefSite) and has_empty_subsite(c)) for p, c in site.sub.items())
 def ref_links(site):
     out = []
     for p, r in site.res.items():
@@ -121,7 +127,7 @@ def ref_links(site):
         if d is not None: out.append(["/" + "/".join(p), [list(x) for x in d]])
     for p, c in site.sub.items():
         if isinstance(c, RefSite):
-            out += [["/" + "/".join(p) + h, d] for h, d in ref_links(c)]
+            out += [[("" if (LITERAL[0] and not p) else "/" + "/".join(p)) + h, d] for h, d in ref_links(c)]
     return out
 def ref_copy(x):
     """the same Site object at a second place behaves like a copy as long as nobody mutates it afterwards"""
@@ -137,8 +143,9 @@ def ref_entries(site, prefix=()):
 def href_path(h):
     return () if h == "/" else tuple(h[1:].split("/"))
 def rfc6690_match(link, k, v):
-    """RFC 6690 section 4.1: exact or prefix ('*') match on href or on the named attribute (names case-insensitive); rt/if/rel/ct are
-    space separated lists; a missing attribute or one without value never matches (not even '*')."""
+    """RFC 6690 section 4.1: exact or prefix ('*') match on href or on the named attribute (attribute names compared case-insensitively);
+    the resource-params rt / if / rel / ct (spelled as in the RFC, lower case) denote space separated lists; a missing attribute or one
+    without value never matches (not even '*').  Same rule as `Matches` in Proofs/C17Wkc.v."""
     prefix = v.endswith("*"); pat = v[:-1] if prefix else v
     if k == "href": vals = [link[0]]
     else:
@@ -152,7 +159,7 @@ class C17(fw.Property):
     coq_props = "Props/C17.v"
     gen_jobs = ["resource_site"]
     model_imports = ["Verif.Lib.Py", "Verif.Model.C17Base", "Verif.Gen.resource_site", "Verif.Model.C17"]
-    quick_budget = 320
+    quick_budget = 240
     thorough_budget = 12000
     design_ref = "DESIGN.md section 21"
     technique = ("Coq refinement proof of the lookup code translated from resource.py to a declarative Route relation (induction over the nested-site tree), "
@@ -176,8 +183,9 @@ class C17(fw.Property):
     trusted_base = ["custom translator translate/jobs/c17.py + Model/C17Base.v prelude (validated by the flat_site stream on every run)",
                     "hand-written Model/C17.v (validated by the site_history and wkc_filter streams)",
                     "harness: handler resources, link_format_to_message capture, URI segment split of get_request_uri()"]
-    assumptions = ["a Site object registered at two places is not mutated afterwards and never registered inside itself (value-tree model)", "at most one Uri-Query filter per request (RFC 6690 4.1; O1)",
-                   "a sub-site registered at the empty path is never consulted (O2) — the theorems and the oracle say 'non-empty proper prefix'"]
+    assumptions = ["model and theorems: a Site object registered at two places is not mutated afterwards (value tree); the oracle-only stream shared_site covers mutation after sharing; a Site is never registered inside itself", "several filter criteria in one request are modelled as the code behaves (late binding) and judged as a conjunction (open finding C17:filter-several-criteria)",
+                   "a sub-site registered at the empty path: the oracle judges by the literal 'longest proper prefix' (open finding C17:empty-prefix-subsite-ignored); the refinement theorems to the literal RouteSpec assume no such site (no_empty_subsite)",
+                   "only the path and query parts of get_request_uri() are compared (fake remote 'srv'); a single empty Uri-Query option vanishing in urlunparse is left to C16"]
 
     # =========================================================================================== generation
     def _rand_path(self, rng, maxlen=3):
@@ -253,7 +261,7 @@ class C17(fw.Property):
         for k in addr: node = node["sub"][tuple(k)]
         return node
 
-    def gen_history(self, rng):
+    def gen_history(self, rng, share=False):
         shadow = {"res": {}, "sub": {}}; ops = []; ids = [0]
         n = rng.randint(6, 26)
         if rng.random() < 0.5:
@@ -285,16 +293,28 @@ class C17(fw.Property):
                 ops.append({"op": "remove", "addr": addr, "path": path})
                 if tuple(path) in node["sub"]: del node["sub"][tuple(path)]
                 elif tuple(path) in node["res"]: del node["res"][tuple(path)]
-            elif r < 0.955 and r >= 0.93:
+            elif (r >= 0.93 and r < 0.955) or (share and r >= 0.85 and r < 0.93):
                 # the same Site object at a second place (not inside itself; frozen afterwards)
                 srcs = [a for a in self._shadow_sites(shadow) if a]
                 if not srcs: continue
                 src = rng.choice(srcs)
-                dsts = [a for a in self._shadow_sites(shadow, mutable=True) if a[:len(src)] != src]
+                node = self._shadow_at(shadow, src)
+                if share:
+                    # shared_site stream: the shared Site stays mutable; only never register a Site inside itself (by object identity)
+                    inside = set()
+                    def collect(n):
+                        if n is None or id(n) in inside: return
+                        inside.add(id(n))
+                        for c in n["sub"].values(): collect(c)
+                    collect(node)
+                    dsts = [a for a in self._shadow_sites(shadow) if id(self._shadow_at(shadow, a)) not in inside]
+                else:
+                    dsts = [a for a in self._shadow_sites(shadow, mutable=True) if a[:len(src)] != src]
                 if not dsts: continue
                 dst = rng.choice(dsts); path = self._rand_path(rng) if rng.random() < 0.7 else list(src[-1])
                 ops.append({"op": "alias", "src": src, "dst": dst, "path": path})
-                node = self._shadow_at(shadow, src); self._freeze(node); self._shadow_at(shadow, dst)["sub"][tuple(path)] = node
+                if not share: self._freeze(node)
+                self._shadow_at(shadow, dst)["sub"][tuple(path)] = node
             elif r < 0.93:
                 full = self._shadow_paths(shadow)
                 path = self._near(rng, rng.choice(full)) if full and rng.random() < 0.92 else self._rand_path(rng)
@@ -306,8 +326,10 @@ class C17(fw.Property):
                 pipe = rng.random() < 0.5; abbrev = None; query = None
                 if pipe and rng.random() < 0.12:
                     abbrev = rng.choice([0, 0, 1, 2, 301, 403, 7, 99]); path = [] if rng.random() < 0.8 else path
+                if rng.random() < 0.12: query = rng.choice(["a=b", "x", ["a=b", "c"], "k=v&w", "rt=x", ["e=é", "*"], "=", ["", "a"]])   # (a single empty option vanishes in urlunparse: C16's business)
                 if path[:2] == [".well-known", "core"] or abbrev == 0:
                     if rng.random() < 0.5: query = rng.choice(["rt=x", "rt=x*", "ct=40", "href=/a*", "obs", "if=i1", "title=hello", "rt=*", "sz=10", "foo=bar"])
+                    if isinstance(query, str) and rng.random() < 0.2: query = [query, rng.choice(["if=i1", "href=/*", "rt=x*", "ct=40", "title=h*", "obs", "rel=r"])]
                 ops.append({"op": "request", "pipe": pipe, "path": path, "abbrev": abbrev, "query": query})
             else:
                 ops.append({"op": "list", "addr": rng.choice(self._shadow_sites(shadow))})
@@ -335,7 +357,11 @@ class C17(fw.Property):
                     t = res(); ops.append({"op": "add", "addr": [["sub"]], "path": p, "thing": t})
                     if t["desc"] is not None: links.append(["/sub/" + "/".join(p), t["desc"]])
         for _ in range(rng.randint(3, 8)):
-            ops.append({"op": "request", "pipe": rng.random() < 0.3, "path": [".well-known", "core"], "abbrev": None, "query": self._filter_query(rng, links)})
+            q = self._filter_query(rng, links)
+            if rng.random() < 0.2:                                              # several criteria at once (2-3 Uri-Query options, any order of kinds)
+                q = [q] + [self._filter_query(rng, links) for _ in range(rng.choice([1, 1, 2]))]
+                if rng.random() < 0.5: q = [x for x in q if not x.startswith("__")]
+            ops.append({"op": "request", "pipe": rng.random() < 0.3, "path": [".well-known", "core"], "abbrev": None, "query": q})
         return {"ops": ops}
 
     def gen_flat(self, rng):
@@ -364,6 +390,7 @@ class C17(fw.Property):
             m = k % 10
             if m < 5: yield "site_history", self.gen_history(rng)
             elif m < 8: yield "wkc_filter", self.gen_filter(rng)
+            elif m == 9 and (k // 10) % 2 == 0: yield "shared_site", self.gen_history(rng, share=True)
             else: yield "flat_site", self.gen_flat(rng)
         if tier == "thorough":
             # exhaustive small scope (validation of the tie, not a proof): every request path of length <= 3 over {a, b, ""}
@@ -505,6 +532,7 @@ class C17(fw.Property):
         return "{| uri_path := %s; uri_path_abbrev := %s; original_request_path := %s |}" % (self.gpath(p), gopt(abbrev, gz), gopt(orig, self.gpath))
 
     def model(self, stream, inp):
+        if stream == "shared_site": return None           # one Site object at several places AND mutated afterwards: oracle-only (the model is a value tree)
         if stream == "flat_site":
             ops = []
             for o in inp["ops"]:
@@ -522,8 +550,8 @@ class C17(fw.Property):
             elif o["op"] == "probe": ops.append("OProbe")
             elif o["op"] == "locate": ops.append("OLocate %s %s" % (gbool(o["observe"]), self.gmsg(o["path"])))
             else:
-                if isinstance(o["query"], list): return None         # several filters: outside the model (O1)
-                ops.append("ORequest %s %s %s" % (gbool(o["pipe"]), self.gmsg(o["path"], o["abbrev"]), gopt(o["query"], gstr)))
+                q = o["query"]; qs = [] if q is None else [q] if isinstance(q, str) else list(q)
+                ops.append("ORequest %s %s %s" % (gbool(o["pipe"]), self.gmsg(o["path"], o["abbrev"]), glist([gstr(x) for x in qs])))
         return "snd (run (NSite [] []) %s)" % glist(ops)
 
     @staticmethod
@@ -553,7 +581,11 @@ class C17(fw.Property):
                     out.append({"child": ["sub" if c.name == "ChildSubsite" else "res", c.args[0]], **d})
             return {"results": out, "resources": [[list(k), v] for k, v in rs], "subsites": [[list(k), v] for k, v in ss]}
         out = []
-        for x in p:
+        def queries(o):
+            # the query part of the reconstructed URI is not modelled; the expected value is simply the request's own Uri-Query options
+            q = o.get("query") if o["op"] == "request" else None
+            return [] if q is None else [q] if isinstance(q, str) else list(q)
+        for o, x in zip(inp["ops"], p):
             if x.name == "RDone": out.append("done")
             elif x.name == "RNoAddr": out.append("noaddr")
             elif x.name == "RExn": out.append(self._exn(x.args[0]))
@@ -567,7 +599,7 @@ class C17(fw.Property):
                 out.append({"probe": [[h, hit(v)] for h, v in x.args[0]]})
             elif x.name == "RHandled":
                 id_, seen, orig, uri = x.args
-                out.append({"h": id_, "seen": list(seen), "orig": self._opt(orig, list), "uri": list(uri.args[0]) if uri.name == "Ok" else self._exn(uri.args[0])})
+                out.append({"h": id_, "seen": list(seen), "orig": self._opt(orig, list), "uri": list(uri.args[0]) if uri.name == "Ok" else self._exn(uri.args[0]), "q": queries(o)})
             else:
                 out.append({"links": self._links(x.args[0]), "payload": x.args[1]})
         return {"results": out}
@@ -578,7 +610,7 @@ class C17(fw.Property):
         if stream == "flat_site": return self.oracle_flat(inp, res)
         # every op is judged; a violation that is not a listed known finding takes precedence over one that is
         known = self._known_signatures(); first_known = None
-        root = RefSite(); removed = set()
+        root = RefSite(); removed = set(); self._sharing = (stream == "shared_site")
         for idx, (o, r) in enumerate(zip(inp["ops"], res["results"])):
             v = self.check_op(root, removed, idx, o, r)
             if v is None: continue
@@ -586,13 +618,27 @@ class C17(fw.Property):
             else: return v
         return first_known
 
-    _known = None
+    _known = None; _sharing = False
     def _known_signatures(self):
         if self._known is None:
             C17._known = {f["signature"] for f in fw.load_known_findings() if f.get("property") == "C17" and f.get("status") == "open"}
         return self._known
 
     def check_op(self, root, removed, idx, o, r):
+        """judge one op by the literal reading of the property; read-only ops that fail only because a nested site at the empty path is
+        ignored (the code's reading explains the behaviour) get the finding's signature"""
+        LITERAL[0] = True
+        try:
+            v = self._check_op(root, removed, idx, o, r)
+            if v is None or o["op"] in ("add", "remove", "alias") or not has_empty_subsite(root): return v
+            LITERAL[0] = False
+            v2 = self._check_op(root, removed, idx, o, r)
+            if v2 is None: return ("C17:empty-prefix-subsite-ignored", "a nested site registered at the empty path is not consulted / is listed with a doubled slash: " + v[1])
+            return v2
+        finally:
+            LITERAL[0] = True
+
+    def _check_op(self, root, removed, idx, o, r):
         if True:
             where = "op %d %s" % (idx, fw.jdump(o)[:160])
             if o["op"] in ("add", "remove", "list"):
@@ -629,7 +675,7 @@ class C17(fw.Property):
                 if src is None or dst is None:
                     return None if r == "noaddr" else ("C17:harness-address", "%s: reference has no such sites, result %s" % (where, r))
                 if r != "done": return ("C17:add-failed", "%s -> %s" % (where, r))
-                dst.sub[tuple(o["path"])] = ref_copy(src)
+                dst.sub[tuple(o["path"])] = src if self._sharing else ref_copy(src)      # shared_site stream: the very same object
                 return None
             if o["op"] == "probe":
                 if not (isinstance(r, dict) and "probe" in r): return ("C17:listing-exception", "%s -> %s" % (where, fw.jdump(r)[:200]))
@@ -694,14 +740,27 @@ class C17(fw.Property):
                 return ("C17:original-path-lost", "%s: _original_request_path is %r, request path %r" % (where, r["orig"], path))
             if r["uri"] != (list(path) or [""]):
                 return ("C17:request-uri-wrong", "%s: get_request_uri() path segments %r, request path %r" % (where, r["uri"], path))
+            qs = [] if o["query"] is None else [o["query"]] if isinstance(o["query"], str) else list(o["query"])
+            if r.get("q") != qs:
+                return ("C17:request-uri-query-wrong", "%s: get_request_uri() query %r, request Uri-Query %r" % (where, r.get("q"), qs))
         return None
 
     def check_listing(self, where, r, expected, impl, query):
         """expected: links of all non-hidden resources (reference); impl: impl-info URI if the WKC adds one; query: filter string or None"""
         if impl is not None: expected = expected + [[impl, [["rel", "impl-info"]]]]
-        kv = None
-        if isinstance(query, str) and "=" in query: kv = query.split("=", 1)
-        if isinstance(query, list): return None                                    # several filters: O1, not judged
+        qs = [] if query is None else [query] if isinstance(query, str) else list(query)
+        crit = [q.split("=", 1) for q in qs if "=" in q]                            # queries without "=" are not filters
+        kv = crit[0] if len(crit) == 1 else None
+        if len(crit) > 1:
+            # several criteria: the code collects one filter per criterion and applies them all -> conjunction
+            if isinstance(r, str): return ("C17:filter-several-criteria", "%s: filters %r -> %s" % (where, qs, r))
+            if not (isinstance(r, dict) and "links" in r): return ("C17:wrong-handler", "%s: expected a link-format listing, got %s" % (where, fw.jdump(r)[:200]))
+            if r["payload"] != link_payload(r["links"]): return ("C17:payload-not-link-format", "%s: payload is not the serialisation of the links" % where)
+            want = [l for l in expected if all(rfc6690_match(l, k, v) for k, v in crit)]
+            key = lambda ls: sorted(fw.jdump(l) for l in ls)
+            if key(r["links"]) != key(want):
+                return ("C17:filter-several-criteria", "%s: filters %r: got %r, the links matching every criterion are %r" % (where, qs, [l[0] for l in r["links"]], [l[0] for l in want]))
+            return None
         if isinstance(r, str):
             if kv is None: return ("C17:listing-exception", "%s raised %s" % (where, r))
             k = kv[0]
@@ -715,13 +774,11 @@ class C17(fw.Property):
             return ("C17:payload-not-link-format", "%s: payload %r is not the RFC 6690 serialisation of %r" % (where, r["payload"][:200], got))
         if kv is not None:
             k, v = kv
-            unjudged = k != k.lower() and k.lower() in ("rt", "if", "rel", "ct")      # upper-case query name for a list attribute: RFC unclear
             want = [l for l in expected if rfc6690_match(l, k, v)]
             key = lambda ls: sorted(fw.jdump(l) for l in ls)
             if key(got) != key(want):
                 if any(fw.jdump(l) not in key(expected) for l in got): return ("C17:filter-invents-link", "%s: %r not among the registered links" % (where, got))
                 if k in PY_ATTRS or k.startswith("__"): return ("C17:filter-crash-python-attribute-name", "%s: filter name %r is a Python attribute of Link" % (where, k))
-                if unjudged: return None
                 if k in SINGLE_VALUED: return ("C17:filter-single-valued-attr-by-character", "%s: filter %r on single-valued attribute compares characters: got %r want %r" % (where, query, [l[0] for l in got], [l[0] for l in want]))
                 pat = v[:-1] if v.endswith("*") else v
                 if k in ("rt", "if", "ct") and pat == "": return ("C17:filter-empty-pattern-matches-missing-attribute", "%s: filter %r selects links that lack the attribute: got %r want %r" % (where, query, [l[0] for l in got], [l[0] for l in want]))
@@ -738,7 +795,7 @@ class C17(fw.Property):
         return ("C17:listing-multiplicity", "%s: got %r want %r" % (where, [l[0] for l in got], [l[0] for l in expected]))
 
     def oracle_flat(self, inp, res):
-        rs, ss = {}, {}
+        rs, ss = {}, {}; found = []
         for idx, (o, r) in enumerate(zip(inp["ops"], res["results"])):
             where = "op %d %s" % (idx, fw.jdump(o)[:160])
             p = tuple(o["path"])
@@ -753,18 +810,24 @@ class C17(fw.Property):
                 if r != "done": return ("C17:remove-failed", "%s -> %s" % (where, r))
             elif o["op"] == "lookup":
                 orig = tuple(o["orig"]) if o["orig"] is not None else p
-                if p in rs: exp = (["res", rs[p]], ())
-                else:
-                    c = [k for k in range(1, len(p)) if p[:k] in ss]
-                    exp = None if not c else (["sub", ss[p[:max(c)]]], () if p[max(c):] == ("",) else p[max(c):])
-                if exp is None:
-                    if r != "exn:KeyError": return ("C17:found-but-unregistered", "%s -> %s" % (where, fw.jdump(r)[:200]))
-                    continue
-                if isinstance(r, str):
-                    return ("C17:not-found-but-registered" if r == "exn:KeyError" else "C17:routing-exception:" + r[4:], "%s -> %s, expected %r" % (where, r, exp))
-                if r["child"] != exp[0]: return ("C17:wrong-handler", "%s: child %r, expected %r" % (where, r["child"], exp[0]))
-                if tuple(r["path"]) != exp[1]: return ("C17:wrong-stripped-path", "%s: stripped path %r, expected %r" % (where, r["path"], exp[1]))
-                if r["orig"] is None or tuple(r["orig"]) != orig: return ("C17:original-path-lost", "%s: _original_request_path %r, expected %r" % (where, r["orig"], orig))
+                def judge(lo):
+                    if p in rs: exp = (["res", rs[p]], ())
+                    else:
+                        c = [k for k in range(lo, len(p)) if p[:k] in ss]
+                        exp = None if not c else (["sub", ss[p[:max(c)]]], () if p[max(c):] == ("",) else p[max(c):])
+                    if exp is None:
+                        return None if r == "exn:KeyError" else ("C17:found-but-unregistered", "%s -> %s" % (where, fw.jdump(r)[:200]))
+                    if isinstance(r, str):
+                        return ("C17:not-found-but-registered" if r == "exn:KeyError" else "C17:routing-exception:" + r[4:], "%s -> %s, expected %r" % (where, r, exp))
+                    if r["child"] != exp[0]: return ("C17:wrong-handler", "%s: child %r, expected %r" % (where, r["child"], exp[0]))
+                    if tuple(r["path"]) != exp[1]: return ("C17:wrong-stripped-path", "%s: stripped path %r, expected %r" % (where, r["path"], exp[1]))
+                    if r["orig"] is None or tuple(r["orig"]) != orig: return ("C17:original-path-lost", "%s: _original_request_path %r, expected %r" % (where, r["orig"], orig))
+                    return None
+                v = judge(0)                                   # literal reading: the empty prefix is a proper prefix too
+                if v is not None:
+                    v2 = judge(1) if () in ss else v           # the code's reading (O2)
+                    if v2 is None: found.append(("C17:empty-prefix-subsite-ignored", "a PathCapable child registered at the empty path is not consulted: " + v[1]))
+                    else: return v2
             else:
                 a = o["abbrev"]
                 if a is None: exp = {"path": list(p), "abbrev": None, "orig": None}
@@ -774,12 +837,19 @@ class C17(fw.Property):
         if [tuple(k) for k, _ in res["resources"]] != list(rs) or [tuple(k) for k, _ in res["subsites"]] != list(ss) \
                 or [v for _, v in res["resources"]] != list(rs.values()) or [v for _, v in res["subsites"]] != list(ss.values()):
             return ("C17:registry-state-wrong", "after the ops the site holds %r / %r, expected %r / %r" % (res["resources"], res["subsites"], rs, ss))
-        return None
+        return found[0] if found else None
 
     def nontrivial(self, stream, inp, res):
         rs = res.get("results", []) if isinstance(res, dict) else []
         if stream == "flat_site":
             ok = any(isinstance(r, dict) and r.get("child", [None])[0] == "sub" for r in rs)
+        elif stream == "shared_site":
+            # a Site registered at a second place and mutated afterwards, and a request served after that
+            seen_alias = mutated = ok = False
+            for o, r in zip(inp["ops"], rs):
+                if o["op"] == "alias" and r == "done": seen_alias = True
+                elif seen_alias and o["op"] in ("add", "remove") and r == "done": mutated = True
+                elif mutated and isinstance(r, dict) and "h" in r: ok = True
         elif stream == "wkc_filter":
             sizes = [len(r["links"]) for r in rs if isinstance(r, dict) and "links" in r]
             ok = len(set(sizes)) > 1 and any(0 < s for s in sizes)
